@@ -360,7 +360,7 @@ def p2pcd(ctx):
     src = norm(unparse(sc.node))
     ctx.ob("C05.p2pcd", sc.short(), "attaches-request", "iflen(self.unknown_ats)>0:" in src and "['inlineP2pcdRequest']=" in src,
            "pending unknown tickets are requested in the next CAM/VAM", sc.loc)
-    ctx.floor("C05.p2pcd", 8)
+    ctx.floor("C05.p2pcd", 7)
 
 
 def router_encap(ctx):
